@@ -109,6 +109,12 @@ func outcomeCoq(r *run) string {
 
 // run with follow-up observation
 func observe(src string, inFunc bool, k, hostPanicAt int) *run {
+	return observeVia(src, inFunc, k, hostPanicAt, 0)
+}
+
+// entry 0: Run(src) with the Interrupt channel installed beforehand;
+// entry 2: the function is defined by a first Run, THEN the channel is installed, then main is entered through Value.Call
+func observeVia(src string, inFunc bool, k, hostPanicAt int, entry int) *run {
 	r := &run{}
 	vm := otto.New()
 	done := false
@@ -144,8 +150,31 @@ func observe(src string, inFunc bool, k, hostPanicAt int) *run {
 		}
 		vm.Interrupt <- f
 	}
-	vm.Interrupt <- f
-	out := RunJS(vm, src)
+	var out Outcome
+	if entry == 2 {
+		vm.Interrupt = nil
+		def := src[:strings.Index(src, "var __r = main();")]
+		if o0 := RunJS(vm, def); o0.Err != nil || o0.Panic != nil {
+			r.kind, r.note = 3, "definition run failed"
+			return r
+		}
+		vm.Interrupt = make(chan func(), 1)
+		vm.Interrupt <- f
+		out = Guard(func() (otto.Value, error) {
+			fn, err := vm.Get("main")
+			if err != nil {
+				return otto.Value{}, err
+			}
+			v, err := fn.Call(otto.UndefinedValue())
+			if err == nil {
+				r.kind, r.val, done = 1, valTerm(v), true
+			}
+			return v, err
+		})
+	} else {
+		vm.Interrupt <- f
+		out = RunJS(vm, src)
+	}
 	switch {
 	case out.Panic != nil:
 		if s, ok := out.Panic.(string); ok && s == haltMsg {
@@ -277,6 +306,43 @@ func main() {
 		env.Add(fmt.Sprintf("LCase %d %s %s %s", i, Cbool(stopped), Cbool(asPanic), Cbool(rest)),
 			fmt.Sprintf("LCase spinner %q interrupted after 20ms: stopped=%v asPanic=%v restAndFollowup=%v", src, stopped, asPanic, rest), "promptness", true)
 	}
+	// the same through the other entry points, with the channel installed only after a first Run
+	for i, how := range []string{"Otto.Call", "Value.Call", "Object.Call", "Otto.Eval"} {
+		vm := otto.New()
+		_, _ = vm.Run(`function spin() { for (;;) {} } var holder = { spin: spin };`)
+		vm.Interrupt = make(chan func(), 1)
+		ch := make(chan Outcome, 1)
+		go func() {
+			ch <- Guard(func() (otto.Value, error) {
+				switch how {
+				case "Otto.Call":
+					return vm.Call("spin", nil)
+				case "Value.Call":
+					fn, _ := vm.Get("spin")
+					return fn.Call(otto.UndefinedValue())
+				case "Object.Call":
+					h, _ := vm.Get("holder")
+					return h.Object().Call("spin")
+				}
+				return vm.Eval("spin()")
+			})
+		}()
+		time.Sleep(20 * time.Millisecond)
+		vm.Interrupt <- func() { panic(haltMsg) }
+		stopped, asPanic, rest := false, false, false
+		select {
+		case o := <-ch:
+			stopped = true
+			if s, ok := o.Panic.(string); ok && s == haltMsg {
+				asPanic = true
+			}
+			d, _ := vm.VerifScopeDepth()
+			rest = d == -1 && vm.VerifLabelCount() == 0
+		case <-time.After(4 * time.Second):
+		}
+		env.Add(fmt.Sprintf("LCase %d %s %s %s", 100+i, Cbool(stopped), Cbool(asPanic), Cbool(rest)),
+			fmt.Sprintf("LCase spinner entered through %s, Interrupt channel installed after a first Run: stopped=%v asPanic=%v rest=%v", how, stopped, asPanic, rest), "promptness", true)
+	}
 	for env.Count() < env.N {
 		budget := 4 + env.Rng.Intn(14)
 		if env.Tier == "thorough" {
@@ -288,7 +354,11 @@ func main() {
 			p = stripTry(p)
 		}
 		src := progJS(p)
-		base := observe(src, p.InFunc, 0, 0)
+		entry := 0
+		if p.InFunc && env.Rng.Intn(2) == 0 {
+			entry = 2 // the Interrupt channel is installed after a first Run, main entered through Value.Call
+		}
+		base := observeVia(src, p.InFunc, 0, 0, entry)
 		progs++
 		N := base.polls
 		var ks []int
@@ -305,9 +375,15 @@ func main() {
 		if p.InFunc {
 			mode = "1"
 		}
+		if entry == 2 {
+			mode = "2"
+		}
 		bucket := "interrupt-global"
 		if p.InFunc {
 			bucket = "interrupt-function"
+		}
+		if entry == 2 {
+			bucket = "interrupt-late-channel-value-call"
 		}
 		emit := func(kind string, k int, r *run) {
 			gl := r.globals
@@ -320,12 +396,12 @@ func main() {
 		}
 		emit("HCase", 0, base)
 		for _, k := range ks {
-			emit("HCase", k, observe(src, p.InFunc, k, 0))
+			emit("HCase", k, observeVia(src, p.InFunc, k, 0, entry))
 		}
 		// host-function panic at the j-th call of log
 		nlog := len(base.log)
 		for j := 1; j <= nlog && j <= 6; j++ {
-			r := observe(src, p.InFunc, 0, j)
+			r := observeVia(src, p.InFunc, 0, j, entry)
 			gl := r.globals
 			if p.InFunc || gl == nil {
 				gl = []string{}
